@@ -17,7 +17,7 @@
    "ring": for every commutative ring with decidable equality, closed at Qc. *)
 From Coq Require Import Sorted.
 From Coq Require Import Permutation.
-From Amgcl Require Import Scalar QcInst Vec Crs Kernels KernelsProofs MatOps Dist DistProofs DistProofsB DistProofsT.
+From Amgcl Require Import Scalar QcInst Vec Crs Kernels KernelsProofs MatOps MatOpsProofs Dist DistProofs DistProofsB DistProofsT DistProofsP.
 Local Open Scope nat_scope.
 
 (* ------------------------------------------------------------------ *)
@@ -137,13 +137,11 @@ Theorem C11_transpose_every_partition (S : Scalar) (A : crs S) (rparts cparts : 
 Proof. intros H1 H2 H3. exact (dist_transpose_assembled_perm A rparts cparts H1 H2 H3). Qed.
 Print Assumptions C11_transpose_every_partition.
 
-(* FULL STATEMENTS (unproved, covered by the MPI correspondence runs against the serial kernels):
-   forall A B (compatible partitions), for all i j,
-     mget (assemble (dist_product (split A rp cp) (split B cp kp))) i j = mget (spgemm_saad A B false) i j;
-   remote_rows delivers, for every ghost column c of A in idx order, row c of B as its owner holds it
-     (the model Dist.dist_remote_rows is compared with the implementation, no theorem);
-   copy between backends preserves local/remote parts and the pattern.
-   No rank-by-rank Coq model of product exists yet. *)
+(* FULL STATEMENTS (unproved, covered by the MPI correspondence runs only):
+   remote_rows as a message exchange (the model Dist.dist_remote_rows directly reads the owner's row; compared
+     with the implementation, and used inside the product model) ;
+   copy between backends preserves local/remote parts and the pattern;
+   Gershgorin / power-method estimates (see C11_gershgorin_rank_local_refuted). *)
 
 (* ------------------------------------------------------------------ *)
 Section Ring.
@@ -167,6 +165,23 @@ Theorem C11_residual_every_partition (A : crs S) (rparts cparts : list nat) (f x
   concat (dist_residual (chunks rparts f) (split A rparts cparts) (chunks cparts x) (chunks rparts res))
   = residual f A x res.
 Proof. intros H1 H2 H3 H4 H5 H6. exact (dist_residual_assembled Srt Seqb A rparts cparts H1 H2 H3 H4 f x res H5 H6). Qed.
+
+(* C11-B: mpi::product (rank-by-rank model Dist.dist_product: local rows of B and the rows of B obtained
+   through remote_rows, two marker accumulators for local / remote columns; compared in STORAGE ORDER with
+   the implementation by bin/check C11) assembles to the serial product of the assembled matrices: same
+   dense entries (duplicates add up), for every compatible row / inner / column partition. *)
+Theorem C11_product_every_partition (A B : crs S) (rpA cpA cpB : list nat) :
+  length rpA = length cpA -> length cpA = length cpB -> psum rpA = nrows A -> psum cpA = nrows B ->
+  let C := assemble (dist_product (split A rpA cpA) (split B cpA cpB)) in
+  ncols C = psum cpB /\
+  length (rows C) = length (rows (spgemm_saad A B false)) /\
+  forall i j, mget C i j = mget (spgemm_saad A B false) i j.
+Proof.
+  intros H1 H2 H3 H4. split; [|split].
+  - exact (proj1 (dist_product_assembled Srt A B rpA cpA cpB H1 H2 H3 H4)).
+  - exact (dist_product_rows Srt A B rpA cpA cpB H1 H2 H3 H4).
+  - exact (dist_product_dense Srt A B rpA cpA cpB H1 H2 H3 H4).
+Qed.
 
 (* C11-A2, second half: the distributed inner product is the serial inner product of the
    assembled vectors, on every rank -- for arbitrary per-rank pieces ... *)
@@ -198,6 +213,12 @@ Theorem C11_residual_every_partition_Qc (A : crs QcS) (rparts cparts : list nat)
   = residual f A x res.
 Proof. exact (C11_residual_every_partition QcS QcS_ring QcS_eqb A rparts cparts f x res). Qed.
 Print Assumptions C11_residual_every_partition_Qc.
+
+Theorem C11_product_every_partition_Qc (A B : crs QcS) (rpA cpA cpB : list nat) :
+  length rpA = length cpA -> length cpA = length cpB -> psum rpA = nrows A -> psum cpA = nrows B ->
+  forall i j, mget (assemble (dist_product (split A rpA cpA) (split B cpA cpB))) i j = mget (spgemm_saad A B false) i j.
+Proof. intros H1 H2 H3 H4. exact (proj2 (proj2 (C11_product_every_partition QcS QcS_ring A B rpA cpA cpB H1 H2 H3 H4))). Qed.
+Print Assumptions C11_product_every_partition_Qc.
 
 Theorem C11_inner_product_every_partition_Qc (parts : list nat) (x y : vec QcS) :
   length x = length y -> length x <= psum parts ->
